@@ -877,6 +877,25 @@ pub fn check_c14_sim(rep: &mut Report) {
         let st = explore(&x, &[vec![Ev::Enable(0)]]);
         rep.phase(&format!("simulated TCP task, retry=({min} ms,{max} ms)"), st, json!({"cfg": cfg, "depth": depth}));
     }
+    // every way of losing a connection (EOF, read error, framing error, the limit of consecutive
+    // response timeouts) between connect failures: whichever way it was lost, the wait is `min` and
+    // the failures that follow a successful connection start again from `min`
+    let depth2 = if thorough { 11 } else { 9 };
+    let filter2 = |e: &Ev, _m: &ClientModel| matches!(e, Ev::ConnectOk | Ev::ConnectFail | Ev::Eof | Ev::ReadError | Ev::BadHeader | Ev::AdvanceToNext);
+    let cost2 = |_e: &Ev| 0;
+    let extra2 = |m: &ClientModel| -> Vec<Ev> {
+        if m.handles[0] && m.next_req < 3 {
+            vec![Ev::Submit { handle: 0, style: MStyle::Future, timeout_ms: 5 }]
+        } else {
+            vec![]
+        }
+    };
+    for n in [1usize, 2] {
+        let cfg = SmCfg { cap: 16, max_timeouts: Some(n), retry_min: 2, retry_max: 16, handles: 1, decode: (0, 0, 0) };
+        let x = Explore { prop: "C14", cfg: &cfg, depth: depth2, max_dev: 0, max_requests: 0, aspects: "DL", filter: &filter2, cost: &cost2, extra: &extra2 };
+        let st = explore(&x, &[vec![Ev::Enable(0)]]);
+        rep.phase(&format!("simulated TCP task, every kind of connection loss, max_response_timeouts={n}"), st, json!({"cfg": cfg, "depth": depth2}));
+    }
 }
 
 // ---------------------------------------------------------------------------------------------
@@ -1051,7 +1070,7 @@ pub fn check_c14(tier: &str) -> i32 {
         "C14",
         tier,
         "model_checking",
-        "(1) the strategy object: all (min,max) pairs with min <= max over a 9-value lattice up to Duration::MAX x all call sequences over {failed connect, disconnect, reset} up to length L, against delay_k = min(min*2^(k-1), max); (2) the production TcpChannelTask under the paused clock: all connect-outcome sequences up to depth D over {connect fails, connect ok then connection lost, disable/enable, advance to the end of the wait, advance to one ms before it} for four (min,max) settings: the delay announced to the listener equals the reference delay and the next attempt starts exactly when it has elapsed, never earlier; (3) serial client and RTU server over real ptys: see the pty phase",
+        "(1) the strategy object: all (min,max) pairs with min <= max over a 9-value lattice up to Duration::MAX x all call sequences over {failed connect, disconnect, reset} up to length L, against delay_k = min(min*2^(k-1), max); (2) the production TcpChannelTask under the paused clock: all connect-outcome sequences up to depth D over {connect fails, connect ok then connection lost, disable/enable, advance to the end of the wait, advance to one ms before it} for four (min,max) settings, and over {connect fails, connect ok, EOF, read error, framing error, request that times out (limit of 1 or 2 consecutive timeouts)}: the delay announced to the listener equals the reference delay and the next attempt starts exactly when it has elapsed, never earlier; (3) serial client and RTU server over real ptys: see the pty phase",
     );
     rep.bounds = json!({"strategy_sequence_length": if rep.thorough() { 12 } else { 10 }, "task_depth": if rep.thorough() { 14 } else { 11 }});
     c14_pure(&mut rep);
